@@ -32,6 +32,10 @@ FMS: list[tuple[str, str]] = [
     ("empty-block", "---\n---\n"),
     ("blank-block", "---\n\n---\n"),
     ("one-char", "---\na\n---\n"),
+    ("long-dashes-inside", "---\na: |\n-----------\nb: 1\n---\n"),
+    ("doc-marker-inside", "---\na: 1\n--- !extra\nb: 2\n---\n"),
+    ("ws-only-line-inside", "---\na: 1\n   \n\t\nb: 2\n---\n"),
+    ("indented-keys", "---\n  a: 1\n    b: 2\n---\n"),
 ]
 BODIES: list[tuple[str, str]] = [
     ("para", "qaa qab qac qad qae\n"),
@@ -39,6 +43,8 @@ BODIES: list[tuple[str, str]] = [
     ("typo", '"qaa" qab\'s qac... qad\n'),
     ("no-gap", None),  # body directly after the closing delimiter (no blank line) - filled in below
     ("bold-heading", "# **qaa**\n\nqab qac qad.\nqae qaf.\n"),
+    ("indented-body-4", "    qaa qab\n\n    qac qad qae\n"),
+    ("indented-body-2", "  - qaa qab\n  - qac\n\n  qad qae\n"),
 ]
 OPTS = [
     dict(semantic=False, cleanups=False, smartquotes=False, ellipses=False),
